@@ -24,6 +24,14 @@ static std::string datastr( const char* d, size_t n )
     return "len:" + std::to_string( n ) + ":fnv:" + std::to_string( fnv( d, n ) );
 }
 
+static void save_line( FILE* out, bool r, const std::string& bytes, bool sum )
+{
+    if ( sum )
+        fprintf( out, "save=%s len=%zu fnv=%llu\n", r ? "true" : "false", bytes.size(), fnv( bytes.data(), bytes.size() ) );
+    else
+        fprintf( out, "save=%s bytes=%s\n", r ? "true" : "false", hex( bytes ).c_str() );
+}
+
 // --- independent byte patching of a saved image (no ELFIO involved)
 static unsigned long long rdf( const std::string& b, size_t off, int w, bool msb )
 {
@@ -66,6 +74,56 @@ static Img parse_img( const std::string& b )
     return m;
 }
 
+// ---- C01 inspection ops: helpers ------------------------------------------------------------
+// boundary index set {0,1,count-1,count,count+1,size-1,size,2^32-1[,2^64-1]}, distinct, in this order
+static std::vector<unsigned long long> bidx( unsigned long long count, unsigned long long size, bool has_size, bool wide )
+{
+    std::vector<unsigned long long> c{ 0, 1 };
+    if ( count >= 1 )
+        c.push_back( count - 1 );
+    c.push_back( count );
+    c.push_back( count + 1 );
+    if ( has_size ) {
+        if ( size >= 1 )
+            c.push_back( size - 1 );
+        c.push_back( size );
+    }
+    c.push_back( 4294967295ULL );
+    if ( wide )
+        c.push_back( 18446744073709551615ULL );
+    std::vector<unsigned long long> r;
+    for ( auto v : c ) {
+        if ( !wide && v > 4294967295ULL )
+            continue;
+        bool dup = false;
+        for ( auto w : r )
+            dup = dup || w == v;
+        if ( !dup )
+            r.push_back( v );
+    }
+    return r;
+}
+// notes through a section / segment accessor: count, then get_note at the boundary indices; the
+// descriptor is read with descSize bytes at the returned pointer (what a user and dump::note do)
+template <class A> static std::string notes_line( A& a, unsigned long long size )
+{
+    Elf_Word    n = a.get_notes_num();
+    std::string s = "n=" + std::to_string( n );
+    for ( auto k : bidx( n, size, true, false ) ) {
+        Elf_Word    type = 0, dsz = 0;
+        std::string name;
+        char*       desc = nullptr;
+        s += " " + std::to_string( k ) + ":";
+        if ( !a.get_note( (Elf_Word)k, type, name, desc, dsz ) )
+            s += "false";
+        else
+            s += std::to_string( type ) + "/" + datastr( name.data(), name.size() ) + "/" +
+                 ( desc ? datastr( desc, dsz ) : std::string( "null" ) ) + "/" + std::to_string( dsz );
+    }
+    return s;
+}
+// ---- end of C01 inspection helpers ------------------------------------------------------------
+
 struct Ctx
 {
     std::unique_ptr<elfio>              elf;
@@ -83,8 +141,63 @@ static void run_case( const std::vector<Toks>& ops, FILE* out )
     objs.emplace_back( new Ctx );
     objs[0]->elf = std::make_unique<elfio>();
     size_t cur   = 0;
+    // every op executed so far except the ones that run the layout or replace the object:
+    // what `savefresh` re-executes to obtain the object "as built"
+    std::vector<Toks> recipe;
+    long long         full_len    = -1; // length of the complete file of the rebuilt object (cache for rel=)
+    size_t            full_len_at = 0;
     for ( auto& t : ops ) {
         const std::string& op = t[0];
+        if ( op == "savefresh" ) {
+            // save (optionally with a byte budget) of a freshly rebuilt copy of the current object;
+            // the objects of this case are not touched
+            Toks sv = t;
+            sv[0]   = "save";
+            std::string rel;
+            if ( kv( t, "rel", rel ) ) {
+                // budget relative to the length of the complete file: one more rebuilt copy is saved
+                // without budget to learn that length
+                if ( full_len < 0 || full_len_at != recipe.size() ) {
+                    recipe.push_back( Toks{ "save", "out=sum" } );
+                    char*  b0 = nullptr;
+                    size_t l0 = 0;
+                    FILE*  m0 = open_memstream( &b0, &l0 );
+                    run_case( recipe, m0 );
+                    fclose( m0 );
+                    recipe.pop_back();
+                    std::string a0( b0 ? b0 : "", l0 );
+                    free( b0 );
+                    size_t q    = a0.rfind( " len=" );
+                    full_len    = q == std::string::npos ? 0 : atoll( a0.c_str() + q + 5 );
+                    full_len_at = recipe.size();
+                }
+                long long len = full_len;
+                long long k   = len + snum( rel );
+                sv            = Toks{ "save", "budget=" + std::to_string( k < 0 ? 0 : k ) };
+                std::string o;
+                if ( kv( t, "out", o ) )
+                    sv.push_back( "out=" + o );
+                if ( kv( t, "file", o ) )
+                    sv.push_back( "file=" + o );
+            }
+            recipe.push_back( sv );
+            char*  mbuf = nullptr;
+            size_t mlen = 0;
+            FILE*  mem  = open_memstream( &mbuf, &mlen );
+            run_case( recipe, mem );
+            fclose( mem );
+            recipe.pop_back();
+            std::string all( mbuf ? mbuf : "", mlen );
+            free( mbuf );
+            while ( !all.empty() && all.back() == '\n' )
+                all.pop_back();
+            size_t nl = all.rfind( '\n' );
+            fprintf( out, "%s\n", all.substr( nl == std::string::npos ? 0 : nl + 1 ).c_str() );
+            fflush( out );
+            continue;
+        }
+        if ( op != "save" && op != "savefile" && op != "reload" )
+            recipe.push_back( t );
         if ( op == "obj" ) {
             cur = (size_t)num( t[1] );
             while ( objs.size() <= cur ) {
@@ -196,6 +309,102 @@ static void run_case( const std::vector<Toks>& ops, FILE* out )
             const char*             p = a.get_string( (Elf_Word)num( t[2] ) );
             fprintf( out, "str=%s\n", p ? hex( std::string( p ) ).c_str() : "null" );
         }
+        // ---- C01 inspection ops -----------------------------------------------------------------
+        else if ( op == "notes" ) {
+            section* sec = c.elf->sections[(unsigned)num( t[1] )];
+            if ( !sec ) {
+                fprintf( out, "null\n" );
+                continue;
+            }
+            note_section_accessor a( *c.elf, sec );
+            fprintf( out, "notes %s\n", notes_line( a, sec->get_size() ).c_str() );
+        }
+        else if ( op == "segnotes" ) {
+            unsigned j = (unsigned)num( t[1] );
+            if ( j >= c.elf->segments.size() ) {
+                fprintf( out, "null\n" );
+                continue;
+            }
+            segment*              g = c.elf->segments[j];
+            note_segment_accessor a( *c.elf, g );
+            fprintf( out, "segnotes %s\n", notes_line( a, g->get_file_size() ).c_str() );
+        }
+        else if ( op == "dyn" ) {
+            section* sec = c.elf->sections[(unsigned)num( t[1] )];
+            if ( !sec ) {
+                fprintf( out, "null\n" );
+                continue;
+            }
+            dynamic_section_accessor a( *c.elf, sec );
+            Elf_Xword                n = a.get_entries_num();
+            std::string              s = "n=" + std::to_string( n );
+            for ( auto k : bidx( n, 0, false, true ) ) {
+                Elf_Xword   tag = 0, value = 0;
+                std::string str;
+                bool        r = a.get_entry( k, tag, value, str );
+                s += " " + std::to_string( k ) + ":" + ( r ? "true" : "false" ) + "/" + std::to_string( tag ) + "/" +
+                     std::to_string( value ) + "/" + datastr( str.data(), str.size() );
+            }
+            fprintf( out, "dyn %s\n", s.c_str() );
+        }
+        else if ( op == "modinfo" ) {
+            section* sec = c.elf->sections[(unsigned)num( t[1] )];
+            if ( !sec ) {
+                fprintf( out, "null\n" );
+                continue;
+            }
+            modinfo_section_accessor a( sec );
+            Elf_Word                 n = a.get_attribute_num();
+            std::string              s = "n=" + std::to_string( n ), first;
+            for ( Elf_Word i = 0; i < n && i < 64; ++i ) {
+                std::string f, v;
+                a.get_attribute( i, f, v );
+                if ( i == 0 )
+                    first = f;
+                s += " " + datastr( f.data(), f.size() ) + "=" + datastr( v.data(), v.size() );
+            }
+            for ( auto k : bidx( n, 0, false, false ) ) {
+                std::string f, v;
+                s += " get:" + std::to_string( k ) + ":";
+                if ( a.get_attribute( (Elf_Word)k, f, v ) )
+                    s += datastr( f.data(), f.size() ) + "=" + datastr( v.data(), v.size() );
+                else
+                    s += "false";
+            }
+            std::vector<std::string> names;
+            if ( n > 0 )
+                names.push_back( first );
+            names.push_back( "zz_absent" );
+            for ( auto& f : names ) {
+                std::string v;
+                s += " byname:" + datastr( f.data(), f.size() ) + "=";
+                s += a.get_attribute( f, v ) ? datastr( v.data(), v.size() ) : std::string( "false" );
+            }
+            fprintf( out, "modinfo %s\n", s.c_str() );
+        }
+        else if ( op == "syms" ) {
+            section* sec = c.elf->sections[(unsigned)num( t[1] )];
+            if ( !sec ) {
+                fprintf( out, "null\n" );
+                continue;
+            }
+            symbol_section_accessor a( *c.elf, sec );
+            Elf_Xword               n = a.get_symbols_num();
+            std::string             s = "n=" + std::to_string( n );
+            for ( auto k : bidx( n, 0, false, true ) ) {
+                std::string   name;
+                Elf64_Addr    value = 0;
+                Elf_Xword     size  = 0;
+                unsigned char bind = 0, type = 0, other = 0;
+                Elf_Half      shndx = 0;
+                bool          r     = a.get_symbol( k, name, value, size, bind, type, shndx, other );
+                s += " " + std::to_string( k ) + ":" + ( r ? "true" : "false" ) + "/" + datastr( name.data(), name.size() ) + "/" +
+                     std::to_string( value ) + "/" + std::to_string( size ) + "/" + std::to_string( bind ) + "/" +
+                     std::to_string( type ) + "/" + std::to_string( shndx ) + "/" + std::to_string( other );
+            }
+            fprintf( out, "syms %s\n", s.c_str() );
+        }
+        // ---- end of C01 inspection ops ----------------------------------------------------------
         else if ( op == "create" ) {
             unsigned char cls = kvn( t, "cls", 64 ) == 32 ? ELFCLASS32 : ELFCLASS64;
             std::string   e;
@@ -300,6 +509,26 @@ static void run_case( const std::vector<Toks>& ops, FILE* out )
             long long  budget = (long long)kvn( t, "budget", (unsigned long long)-1 );
             std::string d;
             bool        r;
+            if ( kvn( t, "file", 0 ) == 1 ) {
+                // file-name overload onto a real file that cannot grow beyond `budget` bytes
+                // (RLIMIT_FSIZE: the write that crosses the limit is cut short and fails with EFBIG)
+                std::string p = "/tmp/vh_savelim_" + std::to_string( getpid() ) + ".bin";
+                signal( SIGXFSZ, SIG_IGN );
+                struct rlimit old_lim, lim;
+                getrlimit( RLIMIT_FSIZE, &old_lim );
+                lim = old_lim;
+                if ( kv( t, "budget", d ) ) {
+                    lim.rlim_cur = (rlim_t)budget;
+                    setrlimit( RLIMIT_FSIZE, &lim );
+                }
+                r = c.elf->save( p );
+                setrlimit( RLIMIT_FSIZE, &old_lim );
+                unlink( p.c_str() );
+                c.saved.clear();
+                fprintf( out, "save=%s bytes=-\n", r ? "true" : "false" );
+                fflush( out );
+                continue;
+            }
             if ( kv( t, "budget", d ) ) {
                 budget_buf   bb( budget );
                 std::ostream os( &bb );
@@ -311,7 +540,35 @@ static void run_case( const std::vector<Toks>& ops, FILE* out )
                 r       = c.elf->save( os );
                 c.saved = os.str();
             }
-            fprintf( out, "save=%s bytes=%s\n", r ? "true" : "false", hex( c.saved ).c_str() );
+            save_line( out, r, c.saved, kv( t, "out", d ) && d == "sum" );
+        }
+        else if ( op == "savefile" ) {
+            // save(const std::string&): kind=ok (a writable temporary file), nodir (directory does not
+            // exist), dir (the path is a directory), full (/dev/full: every write is refused with ENOSPC)
+            std::string kind, d, p;
+            kv( t, "kind", kind );
+            bool tmp = false;
+            if ( kind == "nodir" )
+                p = "/nonexistent-dir-vh/x.elf";
+            else if ( kind == "dir" )
+                p = "/tmp";
+            else if ( kind == "full" )
+                p = "/dev/full";
+            else {
+                p   = "/tmp/vh_save_" + std::to_string( getpid() ) + ".bin";
+                tmp = true;
+            }
+            bool r = c.elf->save( p );
+            if ( tmp ) {
+                std::ifstream      f( p, std::ios::binary );
+                std::ostringstream ss;
+                ss << f.rdbuf();
+                c.saved = ss.str();
+                unlink( p.c_str() );
+                save_line( out, r, c.saved, kv( t, "out", d ) && d == "sum" );
+            }
+            else
+                fprintf( out, "save=%s bytes=-\n", r ? "true" : "false" );
         }
         else if ( op == "forceoverlap" && ( t.size() == 3 || t.size() == 4 ) ) {
             // in the saved image: sh_offset of section j := sh_offset of section i
